@@ -235,13 +235,26 @@ pub fn run(_tier: Tier) -> Outcome {
         if !process_tx(&mut paused, &Tx::one(ix::propagate_fee_state(e.w.group), &[act::stranger()])).ok() {
             continue;
         }
-        for dt in [1i64, 1799, 1800, 1801] {
+        // an extended pause: paused at T, extended at T + 600 (in force until T + 3600), propagated then
+        let mut extended = s0.clone();
+        let mut ext_ok = process_tx(&mut extended, &Tx::one(ix::panic_pause(fa), &[fa])).ok();
+        extended.advance(600);
+        refresh_oracles(&mut extended, &e.w);
+        ext_ok &= process_tx(&mut extended, &Tx::one(ix::panic_pause(fa), &[fa])).ok();
+        ext_ok &= process_tx(&mut extended, &Tx::one(ix::propagate_fee_state(e.w.group), &[act::stranger()])).ok();
+        // (scenario store, seconds already elapsed since T in it, length of the pause, probe offsets from T)
+        let mut scenarios: Vec<(&str, &Store, i64, i64, Vec<i64>)> = vec![("single", &paused, 0, 1800, vec![1, 1799, 1800, 1801])];
+        if ext_ok {
+            scenarios.push(("extended", &extended, 600, 3600, vec![601, 1800, 2400, 3599, 3600, 3601]));
+        }
+        for (scn, base_store, elapsed, length, dts) in scenarios {
+        for dt in dts {
             for repropagate in [false, true] {
-                if repropagate && dt < 1800 {
+                if repropagate && dt < length {
                     continue;
                 }
-                let mut s1 = paused.clone();
-                s1.advance(dt);
+                let mut s1 = base_store.clone();
+                s1.advance(dt - elapsed);
                 refresh_oracles(&mut s1, &e.w);
                 if repropagate {
                     process_tx(&mut s1, &Tx::one(ix::propagate_fee_state(e.w.group), &[act::stranger()]));
@@ -252,8 +265,8 @@ pub fn run(_tier: Tier) -> Outcome {
                 let (ok, code, what_moved) = run_at(&s1);
                 let (ok_twin, _, _) = run_at(&twin);
                 cells += 2;
-                let in_force = dt < 1800;
-                let rep = json!({"model": "C14B", "golden": g.name, "dt": dt, "repropagate": repropagate});
+                let in_force = dt < length;
+                let rep = json!({"model": "C14B", "golden": g.name, "scenario": scn, "dt": dt, "repropagate": repropagate});
                 if in_force {
                     let moved = what_moved.is_some();
                     *classes.entry(format!("pause_in_force:{}:{}", if ok { "ok" } else { "refused" }, if ok && moved { "MOVED" } else { "nothing_moved" })).or_insert(0) += 1;
@@ -261,7 +274,7 @@ pub fn run(_tier: Tier) -> Outcome {
                         o.found.push(Found {
                             clause: "C14.pause_blocks_fund_and_position_changes".into(),
                             sig: g.name.to_string(),
-                            detail: format!("{} succeeded {} s into a propagated protocol pause: {}", g.name, dt, what_moved.clone().unwrap_or_default()),
+                            detail: format!("{} succeeded {} s into a propagated protocol pause ({scn}, in force for {length} s): {}", g.name, dt, what_moved.clone().unwrap_or_default()),
                             replay: rep,
                         });
                     }
@@ -271,12 +284,13 @@ pub fn run(_tier: Tier) -> Outcome {
                         o.found.push(Found {
                             clause: "C14.expired_pause_does_not_block".into(),
                             sig: g.name.to_string(),
-                            detail: format!("{} is still refused ({}) {} s after the pause started (repropagated: {}) although it succeeds in the never-paused world", g.name, crate::svm::err_name(code), dt, repropagate),
+                            detail: format!("{} is still refused ({}) {} s after the pause started ({scn}, length {length} s; repropagated: {}) although it succeeds in the never-paused world", g.name, crate::svm::err_name(code), dt, repropagate),
                             replay: rep,
                         });
                     }
                 }
             }
+        }
         }
     }
     if cells < 500 {
@@ -292,7 +306,7 @@ pub fn run(_tier: Tier) -> Outcome {
     o.coverage = json!({
         "evaluations": cells,
         "distinct_nontrivial": refused,
-        "rule": "(A) every financial instruction (deposit, withdraw, withdraw-all, borrow, repay, repay-all, liquidation with asset and debt bank separately, bankruptcy, Token-2022 deposit, ...) x each of its banks x {Paused, ReduceOnly, KilledByBankruptcy} against the statement's table (refusals and the 'still works' cells); (B) every golden instruction of the program x a propagated protocol pause at +1 s, +1799 s (in force: a success must not move any position or token amount of the group) and +1800 s, +1801 s with and without re-propagation (expired: same verdict as the never-paused twin at the same clock); distinct_nontrivial = refused cells",
+        "rule": "(A) every financial instruction (deposit, withdraw, withdraw-all, borrow, repay, repay-all, liquidation with asset and debt bank separately, bankruptcy, Token-2022 deposit, ...) x each of its banks x {Paused, ReduceOnly, KilledByBankruptcy} against the statement's table (refusals and the 'still works' cells); (B) every golden instruction of the program x a propagated protocol pause at +1 s, +1799 s (in force: a success must not move any position or token amount of the group) and +1800 s, +1801 s with and without re-propagation (expired: same verdict as the never-paused twin at the same clock), and the same around an extended pause (paused at T, extended and propagated at T+600, in force until T+3600; probes at +601, +1800, +2400, +3599, +3600, +3601); distinct_nontrivial = refused cells",
         "golden_calls_not_exercised": not_exercised,
         "exhaustive": true,
         "outcome_classes": classes,
